@@ -291,7 +291,31 @@ def _exc(e):
     return "%s: %s" % (type(e).__name__, e)
 
 
-def check_valid(raw, content, names_universe):
+OTHER_CONTENT = {"control": [("Package", "zz-other"), ("Version", "9"), ("Description", "another package")],
+                 "scripts": [("postinst", b"#!/bin/sh\necho other\n")], "md5": [],
+                 "data": [("zz/other", b"OTHER")]}
+_other = []
+
+
+def open_others():
+    """what a program handling several packages does between opening a package and reading it: opens another
+    well-formed package (and keeps it alive) and tries to open a defective one"""
+    from debian.debfile import DebFile, DebError
+    if not _other:
+        pk = Packer(OTHER_CONTENT)
+        _other.append(pk.raw("gz", "xz", (0, 1, 2)))
+        _other.append(db.assemble([(db.INFO, db.INFO_DATA),
+                                   (db.part_name("control", "gz"), pk.parts[("control", "gz")])]))
+    keep = DebFile(fileobj=io.BytesIO(_other[0]))
+    keep.debcontrol()
+    try:
+        DebFile(fileobj=io.BytesIO(_other[1]))
+    except DebError:
+        pass
+    return keep
+
+
+def check_valid(raw, content, names_universe, interleave=False):
     """Open one well-formed package and compare every observation with what was packed.
     -> list of (sig, expected, observed)"""
     from debian.debfile import DebFile
@@ -300,6 +324,11 @@ def check_valid(raw, content, names_universe):
         deb = DebFile(fileobj=io.BytesIO(raw))
     except Exception as e:
         return [("deb/open/raises/" + type(e).__name__, "package accepted", _exc(e))]
+    if interleave:
+        try:
+            _keep = open_others()
+        except Exception as e:
+            return [("deb/open-other/raises/" + type(e).__name__, "another package opens", _exc(e))]
 
     def attempt(sig, fn):
         try:
@@ -484,6 +513,19 @@ def run_unit(u, tier, seed):
         part.extra["order %s" % "".join("bcd"[i] for i in order)] += 1
         part.extra["data files=%d" % len(content["data"])] += 1
         part.extra["scripts=%d" % len(content["scripts"])] += 1
+    # isolation: the same observations with another package opened (and a defective one refused) in between
+    for cc, dc, order in (CONFIGS[0], CONFIGS[len(CONFIGS) // 2], CONFIGS[-1]):
+        raw = pk.raw(cc, dc, order)
+        bad = check_valid(raw, content, content["universe"], interleave=True)
+        part.states += 1
+        part.transitions += 1
+        part.traces += 1
+        part.evaluations += 1
+        part.nontrivial += 1
+        case = {"kind": "valid", "content": content, "cc": cc, "dc": dc, "order": list(order), "interleave": True}
+        for sig, exp, obs in bad:
+            part.violation("isolation/" + sig, case, exp, obs)
+        part.outcomes["isolation/" + ("violating" if bad else "ok")] += 1
     part.max_depth = 4
     part.sample({"kind": "valid", "content": content, "cc": "xz", "dc": "none", "order": [2, 0, 1]})
     return part
@@ -495,6 +537,8 @@ def replay(case):
     content = case["content"]
     pk = Packer(content)
     raw = pk.raw(case["cc"], case["dc"], tuple(case["order"]))
+    if case.get("interleave"):
+        return [("isolation/" + b[0],) + tuple(b[1:]) for b in check_valid(raw, content, content["universe"], True)]
     return check_valid(raw, content, content["universe"])
 
 
